@@ -63,8 +63,13 @@ impl<'c> LGen<'c> {
     fn field_ty(&mut self, depth: u32, param: bool) -> Ty {
         let k = self.c.below(20);
         match k {
-            0..=10 => self.scalar(),
+            0..=9 => self.scalar(),
             11 if param => Ty::Param(0),
+            // zero-sized fields between the others: `()` has no alignment of its own, the host type Tz
+            // is zero-sized but aligned to four bytes
+            10 if self.allow_str && !self.value_returning_outs && !self.literal_only => {
+                if self.c.chance(128) { Ty::Unit } else { Ty::Tz }
+            }
             12 | 13 if !self.prog.decls.is_empty() && depth > 0 => {
                 let i = self.c.below(self.prog.decls.len());
                 self.inst(i)
@@ -183,6 +188,12 @@ impl<'c> LGen<'c> {
     }
 
     fn leaf(&mut self, t: &Ty) -> Expr {
+        if *t == Ty::Tz {
+            return Expr::Host("mkz".into(), vec![]);
+        }
+        if *t == Ty::Unit {
+            return self.lit(t);
+        }
         if !self.literal_only && self.c.chance(150) {
             let k = self.c.below(6);
             let kl = Expr::Lit(Lit { v: V::Int(IntTy::U32, k as i128), text: format!("{k}") });
